@@ -71,6 +71,15 @@ theorem catalog_meets_hypotheses :
     ctorTable.all (fun r => decide (r.cfg.format ≠ .other) && boundsOk r.cfg && good r.cfg r.initial) = true := by
   decide +kernel
 
+/-- When the application changes the declared range (Int/Float `SetMinValue` / `SetMaxValue`, F32 repair), the setter runs
+    the stored value through the same clamp under the NEW bounds: for every new configuration with usable bounds and every
+    value that can be stored (any Go int; any finite float), the result lies within the new range and is finite. (The path
+    setter → `updateValue(current)` itself is tied by the correspondence stream `rebound`.) -/
+theorem reclamped_value_in_new_range (cfg' : Config) (hb : boundsOk cfg' = true) :
+    (∀ i : Int, inRange cfg' (.int (clampInt cfg' i)) = true) ∧
+    (∀ x : F64, x.isFinite = true → inRange cfg' (.float (clampFloat cfg' x)) = true ∧ (clampFloat cfg' x).isFinite = true) :=
+  ⟨fun i => clampInt_good cfg' hb i, fun x hx => clampFloat_good cfg' hb x hx⟩
+
 -- non-vacuity: instances of the hypotheses, and what fails without them ---------------------------------
 
 /-- Brightness: int32, pr+pw+ev, [0,100], typed Int callback -/
